@@ -133,7 +133,7 @@ func (p *printer) attr(a *Attr, ind int, multi bool) {
 	case "boolconst":
 		p.w(a.Name)
 	case "expr":
-		p.attrBraces(a, ind, p.src(a.E, false, ind))
+		p.attrBraces(a, ind, p.src(a.E, a.Lines, ind))
 	case "boolexpr":
 		p.w(a.Name + "?={ ")
 		p.expr("boolean attribute", p.src(a.Cond, false, ind))
@@ -213,9 +213,20 @@ func (p *printer) attrBraces(a *Attr, ind int, src string) {
 	}
 }
 
-func hasCondAttr(attrs []Attr) bool {
+// needsAttrLines: attributes that must be written one per line (conditional attributes and
+// newline-padded braces); an attribute whose expression merely spans lines keeps its neighbours.
+func needsAttrLines(attrs []Attr) bool {
 	for _, a := range attrs {
 		if a.Kind == "cond" || ((a.Kind == "expr" || a.Kind == "class") && a.Pad >= 2) {
+			return true
+		}
+	}
+	return false
+}
+
+func hasCondAttr(attrs []Attr) bool {
+	for _, a := range attrs {
+		if a.Kind == "cond" || ((a.Kind == "expr" || a.Kind == "class") && (a.Pad >= 2 || a.Lines)) {
 			return true // these attributes span lines: the element cannot be a single-line one
 		}
 	}
@@ -224,7 +235,7 @@ func hasCondAttr(attrs []Attr) bool {
 
 func (p *printer) openTag(n *Node, ind int) {
 	p.w("<" + n.Name)
-	lines := n.L.AttrLines || hasCondAttr(n.Attrs)
+	lines := n.L.AttrLines || needsAttrLines(n.Attrs)
 	for i := range n.Attrs {
 		if lines {
 			p.w("\n")
